@@ -182,7 +182,22 @@ def f_c08b():
     return f'absent F-C08b ({ch.metar_msg()})'
 
 
-ALL = {'F-C08b': f_c08b, 'F-C10': f_c10, 'F-C14a': f_c14a, 'F-C14b': f_c14b, 'F-C08': f_c08, 'F-C06b': f_c06b,
+def f_c10b():
+    """A caller index that is merely named like a column: pandas refuses the merge of the coincidence test."""
+    import ampycloud
+    from ampycloud.utils import mocker
+    df = mocker.canonical_demo_data()
+    ref = ampycloud.run(df).metar_msg()
+    df2 = df.copy()
+    df2.index.name = 'ceilo'
+    try:
+        got = ampycloud.run(df2).metar_msg()
+    except Exception as err:  # pylint: disable=broad-except
+        return f'DEFECT F-C10b: {type(err).__name__}: {str(err)[:90]}'
+    return 'absent F-C10b' if got == ref else f'DEFECT F-C10b: {got} != {ref}'
+
+
+ALL = {'F-C10b': f_c10b, 'F-C08b': f_c08b, 'F-C10': f_c10, 'F-C14a': f_c14a, 'F-C14b': f_c14b, 'F-C08': f_c08, 'F-C06b': f_c06b,
        'F-C06a': f_c06a, 'F-C05': f_c05, 'F-C20': f_c20}
 
 if __name__ == '__main__':
